@@ -584,6 +584,11 @@ inline void gen_ids(Choice& ch, Spec& s, const GenOpts& o) {
                 p = 1 + ch.draw(0xffff);
             } else {
                 p = ch.draw64() | 1;
+                if (p == ~std::uint64_t(0)) {
+                    // invalid_type, the library's "no id" value (the empty
+                    // mark of the hash tables), is not an id a class can have
+                    p -= 2;
+                }
             }
             if (++guard > 50) {
                 // a choice source that ran dry keeps drawing 0: take the
